@@ -91,6 +91,13 @@ CHECKS.update({
    note=TB_A),
 })
 
+
+CHECKS.update({
+ "C08": dict(level="proof", engine="A", technique="Gallina model of to_digits_exp/to_str on digit lists and of repr_dps in correspondence (all formatting options); Coq sweep 10^(repr_dps p -1) > 2^p for p<=3000 (found and fixed a defect at p=54); exact-digit theorem for bc<=bitprec; exact nearest-decimal and round-trip oracles",
+   text="Printing is modelled character for character (rounding half-up on decimal digits, carries, fixed/exponent layout, strip_zeros, specials) and tied to the code by correspondence; repr's digit count is proved sufficient for round trips for every precision up to 3000 bits; digit generation is proved exact when the mantissa fits the conversion precision. eval(repr(x))==x, parseability by float()/Decimal() and nearest-n-digit-ness are decided exactly on adversarial values (next to decimal ties, 99..9 carries, huge exponents). Nearest-ness is false when the mantissa is longer than the conversion precision: known finding keyed by that regime.",
+   note=TB_Z + " The double computations of bitprec/fixdps are inputs of the model; the |exp+bc|>3500 path is decided by the oracle only."),
+})
+
 NOT_APPLICABLE = {
 }
 
